@@ -42,12 +42,16 @@ AOBJ = ["quantized_relu(4,1,negative_slope=0.25)", "quantized_bits(4,1,1,alpha=1
         "quantized_relu(4,1,is_quantized_clip=False)", "quantized_bits(6,1,1,alpha='auto_po2',scale_axis=0)", "quantized_relu(5,2)"]
 
 
+_ACT_STATE = {"n": 0}
+
+
 def act_arg(rng):
   """a QActivation argument: a quantizer string (2/3) or a quantizer object built with function-changing options (1/3)"""
   from qkeras.quantizers import get_quantizer
   import qkeras.quantizers as Q   # noqa: F401  (eval namespace)
-  if rng.integers(0, 3) == 0:
-    return eval("Q." + pick(rng, AOBJ))   # pylint: disable=eval-used
+  _ACT_STATE["n"] += 1
+  if _ACT_STATE["n"] % 3 == 0:            # every third QActivation carries a quantizer object, the objects in rotation
+    return eval("Q." + AOBJ[(_ACT_STATE["n"] // 3) % len(AOBJ)])   # pylint: disable=eval-used
   return pick(rng, AQ[:-2])
 
 
